@@ -602,6 +602,16 @@ def div(a, b):
         if fb == 0:
             if not isinstance(a, SymReal):
                 return np.float64(a) / np.float64(0.0)
+            c = _ctx.cur()
+            if c.check_div:
+                # numpy would produce inf/nan here: record the event as a finiteness
+                # counterexample candidate and continue with an unconstrained value
+                r, m = c._check()
+                if r == 'sat':
+                    c.div_zero.append(m)
+                elif c.last_model is not None:
+                    c.div_zero.append(c.last_model)
+                return atom(c.fresh_real('nan'))
             raise ZeroDivisionError("symbolic value divided by zero")
         return mul(a, 1 / fb)
     a = lift(a)
